@@ -35,4 +35,11 @@ def foldSegs (H : Str → Str) (segs : List Str) : Str :=
 /-- `MerklePath(path)` -/
 def merklePath (H : Str → Str) (path : Str) : Str := foldSegs H (splitOnSlash (trimSlash path))
 
+/-- `MerkleHelper(path)` — the client-side derivation (x/filetree/types/test_helpers.go: compiled
+into the binary, used by `CreateMsgPostFile`, the CLI twin and the simulation): the parent address
+and the child hash from which a post message for the plain path is built -/
+def merkleHelper (H : Str → Str) (path : Str) : Str × Str :=
+  let chunks := splitOnSlash (trimSlash path)
+  (merklePath H (joinSlash chunks.dropLast), H (chunks.getLastD []))
+
 end Canine.Filetree
